@@ -237,6 +237,9 @@ def r10_8(ctx):
 def r10_5(ctx):
     c09.r9_1(ctx)
     c09.r9_4(ctx)
+    c09.r9_7(ctx)
+    from . import c07
+    c07.line_parser_rules(ctx)
 
 
 def r10_6(ctx):
